@@ -4,7 +4,11 @@ Coq: Properties_C17 (interleaving semantics: disjoint write sets => race-free
 and sequentially equivalent under every schedule; no writable globals, with
 gen/Globals.v regenerated from the object files) and Properties_C17_codecs (the
 theorem instantiated for the scalar codecs and for array codecs with shared
-read-only inputs: destination windows of the proven C01/C03/C13 size suffice).
+read-only inputs: destination windows of the proven C01/C03/C13 size suffice)
+and Properties_C17_codecs2 (the same for the group codec, PFOR, BP128, the float
+codec and the adaptive container, and for the in-place accessors of packed
+arrays and bitstreams: calls that share no storage slot / word never race; calls
+on different elements of the same slot are shown to race).
 C: the correspondence driver's --threads mode: every case of the stateless
 codec parts is executed sequentially, then by 16 threads at once (each thread
 runs every case, different starting offsets); every thread's output line must
@@ -128,7 +132,7 @@ def custom(ctx):
 
 
 PARTS = {
-    "C17": dict(coq_props=["Properties_C17", "Properties_C17_codecs"],
+    "C17": dict(coq_props=["Properties_C17", "Properties_C17_codecs", "Properties_C17_codecs2"],
                 files=["src/varintTagged.c", "src/varintExternal.c", "src/varintChained.c", "src/varintFOR.c"],
                 rule="every case of the stateless codec parts run sequentially and then by 16 threads concurrently "
                      "(each thread runs all cases, staggered; then all threads run each shared-input case at the same moment, 6 times, with thread-dependent lookup order and thread-private shifted copies of the data); outputs must equal the sequential ones; TSan build must "
